@@ -30,6 +30,12 @@ CHECKS["C18"] = dict(
   technique="Lean 4 proof over executable model + differential correspondence (go test -overlay, synctest virtual time)",
   design="§10 C18")
 
+CHECKS["C07"] = dict(
+  text="Lean theorems (unbounded: all rule lists, names, qtypes, answers, caches, upstream behaviours): the byte-level Match loops of the DNS request and response matchers over the compiled (lowered + index-linked) program return the first rule that holds, else the fallback (scanGo_link + RuleScan.scan_lower), names routed alike up to case and one trailing dot; controller skeleton: reject beats any cache content and clears the family, a question goes to the selected upstream, accept/empty/re-ask per first matching response rule, at most MaxDnsLookupDepth=3 upstream queries for every rule set (reask_bounded), bouncing ends with the documented error. Tied to /repo by differential runs of the real builders/matchers (compiled array dump + decisions) and the real DnsController with fake forwarders.",
+  note="Trusted: Lean kernel + standard axioms; domain matcher / regex / CIDR trie are oracles (C11, C12); cache modelled as fresh entries only (C08); sequential single-client asks (concurrency is C09); ASCII names.",
+  technique="Lean 4 proof (refinement to first-match spec + structural recursion bound) + differential correspondence (go test -overlay)",
+  design="§10 C07")
+
 def main():
     checks = []
     for pid in ALL:
